@@ -1406,6 +1406,7 @@ impl SvgElement {
             "ellipse" => (Some("rx"), Some("ry")),
             _ => (None, None),
         };
+        let mut radius_adjusted = false;
         for (delta_attr, radius_attr, box_attr) in
             [("dw", w_radius, "width"), ("dh", h_radius, "height")]
         {
@@ -1414,6 +1415,13 @@ impl SvgElement {
                     Some(r) if self.has_attr(r) => (r, 2.),
                     _ => (box_attr, 1.),
                 };
+                if size_attr == "r" {
+                    // a circle has one size: `dwh` (dw and dh) changes it once, not twice
+                    if radius_adjusted {
+                        continue;
+                    }
+                    radius_adjusted = true;
+                }
                 let size = self
                     .get_attr(size_attr)
                     .and_then(|v| strp(&v).ok())
